@@ -2,4 +2,5 @@ pub mod c05;
 pub mod c09;
 pub mod c18;
 pub mod codec;
+pub mod concur;
 pub mod hist;
